@@ -364,18 +364,16 @@ fn make_etag(
 ) -> Option<String> {
     use p256::ecdsa::signature::Signer;
 
-    if uri == "/" {
-        return None;
-    }
+    // The client appends `cup2key` to whatever path and query its service URL already has, so
+    // look for it among all query pairs (the last one wins); without it no etag can be induced.
+    let parsed_uri = Url::parse(&format!("https://example.com{uri}")).ok()?;
+    let (_, cup2key_val) = parsed_uri
+        .query_pairs()
+        .filter(|(key, _)| key == "cup2key")
+        .last()?;
 
-    let parsed_uri = Url::parse(&format!("https://example.com{uri}")).unwrap();
-    let mut query_pairs = parsed_uri.query_pairs();
-
-    let (cup2key_key, cup2key_val) = query_pairs.next().unwrap();
-    assert_eq!(cup2key_key, "cup2key");
-
-    let (public_key_id_str, _nonce_str) = cup2key_val.split_once(':').unwrap();
-    let public_key_id: PublicKeyId = public_key_id_str.parse().unwrap();
+    let (public_key_id_str, _nonce_str) = cup2key_val.split_once(':')?;
+    let public_key_id: PublicKeyId = public_key_id_str.parse().ok()?;
     let private_key: &PrivateKey = match private_keys.find(public_key_id) {
         Some(pk) => Some(pk),
         None => {
